@@ -46,6 +46,8 @@ open Gen
 
 def missingDefaultMethod : String := "isnull"
 
+def missingEntryDefaults : List String := ["isnull", "isnull"]
+
 def isCaseMissing {D M R V : Type} (o : MissOps D M R V) (ds : D) (setting : List (String × V)) (method : String) : Except MErr Bool := 
   (match o.sel ds setting with
   | .error e2 =>
